@@ -153,6 +153,10 @@ def _project_cases():
     for n in (3, 30):
         for fc in ("root-has-format-command", "root-has-black-options"):
             out.append({"proj": "nested-project", "n": n, "root": fc})
+    # a format-command given relative to the directory the session is started in, test files in sub-directories
+    for n in (3, 30):
+        for sub in ("tests", "tests/unit"):
+            out.append({"proj": "fmtcmd-relative", "n": n, "sub": sub})
     # black itself raises for the text of one file (fault injected at black.format_str inside the session's own process)
     for order in ("fail-first", "fail-last", "fail-middle"):
         for n in (3, 30):
@@ -195,6 +199,21 @@ def _judge_project(c):
             return ("clean-file-not-clean-afterwards", "the formatter failed for %s only, but %s is no longer formatted:\n%s" % (names[0], names[1], good[-400:]))
         if "Problems" not in r["out"]:
             return ("formatter-problem-not-reported", r["out"][-300:])
+        return None
+    if c["proj"] == "fmtcmd-relative":
+        files = {c["sub"] + "/test_a.py": clean, "tools/fmt_cmd.py": FMT_SCRIPT, "pyproject.toml": '[tool.inline-snapshot]\nformat-command="%s tools/fmt_cmd.py {filename}"\n' % sys.executable}
+        d = plugin.mk_project(files)
+        try:
+            r = plugin.session(d, ["--inline-snapshot=create,fix", c["sub"]])
+            after = plugin.listing(d, text=True)[c["sub"] + "/test_a.py"]
+        finally:
+            plugin.cleanup()
+        if plugin.internal_error(r["out"]):
+            return ("internal-error", r["out"][-600:])
+        if after == clean:
+            return ("harness", "nothing changed")
+        if black.format_str(after, mode=mode) != after:
+            return ("clean-file-not-clean-afterwards", "format-command relative to the start directory, file in %s:\n%s\n%s" % (c["sub"], after[-400:], r["out"][-300:]))
         return None
     if c["proj"] == "black-one-file-fails":
         bad = clean + "\n\nMARK = 'poison_pill'\n"
